@@ -161,8 +161,10 @@ package logic
 //@ func NewThrowEventSatisfier
 //@   prop C14
 //@   ensures [constructor-establishes-the-invariant] result != nil && tesShape(result) && len(result.chains) == 0
+//@   ensures [registers-nothing] count(Call, code("event|ISource.RegisterEventConsumer")) == old(count(Call, code("event|ISource.RegisterEventConsumer")))
 //@   loop 1 range catchEventElement.EventDefinitions()
 //@     invariant satisfier != nil && fresh(satisfier) && len(satisfier.chains) == 0 && satisfier.len == len(satisfier.eventDefinitionInstances)
+//@     invariant count(Call, code("event|ISource.RegisterEventConsumer")) == old(count(Call, code("event|ISource.RegisterEventConsumer")))
 
 // ---------------------------------------------------------------------------------------------------------------
 // Accounting over histories (C14).  chainCard(E, B, lo, n, k): how many of the n chains stored at positions
